@@ -68,6 +68,12 @@ def pstmt(s, rn):
         return s[1]
     if k == "set":
         return "{%% set %s = %s %%}" % (rn(s[1]), pexpr(s[2], rn))
+    if k == "settuple":
+        return "{%% set %s = %s %%}" % (", ".join(rn(n) for n in s[1]), ", ".join(pexpr(e, rn) for e in s[2]))
+    if k == "supersuper":
+        return "{{ super.super() }}"
+    if k == "selfsuper":
+        return "{{ self.%s.super() }}" % s[1]
     if k == "if":
         r = "{%% if c%d %%}%s" % (s[1], pstmts(s[2], rn))
         if s[3] is not None:
@@ -219,7 +225,7 @@ class Interp:
             k = s[0]
             if k == "extends":
                 continue
-            if suppress and k in ("out", "text", "callm", "callblock", "caller", "for", "if", "with", "filterblock", "block", "include", "super", "selfblock"):
+            if suppress and k in ("out", "text", "callm", "callblock", "caller", "for", "if", "with", "filterblock", "block", "include", "super", "selfblock", "supersuper", "selfsuper"):
                 # content outside blocks in a child template is not rendered
                 if k in ("if", "for", "with", "filterblock"):
                     continue
@@ -230,6 +236,23 @@ class Interp:
                 out.append(s[1])
             elif k == "set":
                 scope.vars[s[1]] = self._eval(s[2], scope)
+            elif k == "settuple":
+                vals = [self._eval(e, scope) for e in s[2]]
+                for n, v in zip(s[1], vals):
+                    scope.vars[n] = v
+            elif k == "supersuper":
+                if block_ctx is not None:
+                    bname, depth, bscope = block_ctx
+                    defs = frame["blocks"].get(bname, [])
+                    if depth + 2 < len(defs):
+                        self._render_block(bname, depth + 2, bscope, frame, out, explicit_scope=True)
+                    else:
+                        raise TplUndefined("there is no parent block")
+            elif k == "selfsuper":
+                defs = frame["blocks"].get(s[1])
+                if not defs or len(defs) < 2:
+                    raise TplUndefined("no such parent block")
+                self._render_block(s[1], 1, None, frame, out, explicit_scope=True)
             elif k == "if":
                 c = self.ctx["c%d" % s[1]]
                 if c:
